@@ -797,6 +797,21 @@ func (vm *vm) restoreStacks(iterLen, refLen uint32) (ex *Exception) {
 	return
 }
 
+// dropStacks truncates the iterator and reference stacks without closing the iterators. Used when unwinding
+// because of an uncatchable condition (interrupt, stack overflow), which must not run any script code.
+func (vm *vm) dropStacks(iterLen, refLen uint32) {
+	iterTail := vm.iterStack[iterLen:]
+	for i := range iterTail {
+		iterTail[i] = iterStackItem{}
+	}
+	vm.iterStack = vm.iterStack[:iterLen]
+	refTail := vm.refStack[refLen:]
+	for i := range refTail {
+		refTail[i] = nil
+	}
+	vm.refStack = vm.refStack[:refLen]
+}
+
 func (vm *vm) handleThrow(arg interface{}) *Exception {
 	ex := vm.exceptionFromValue(arg)
 	for len(vm.tryStack) > 0 {
@@ -815,7 +830,11 @@ func (vm *vm) handleThrow(arg interface{}) *Exception {
 		vm.sp = int(tf.sp)
 		vm.stash = tf.stash
 		vm.privEnv = tf.privEnv
-		_ = vm.restoreStacks(tf.iterLen, tf.refLen)
+		if ex != nil {
+			_ = vm.restoreStacks(tf.iterLen, tf.refLen)
+		} else {
+			vm.dropStacks(tf.iterLen, tf.refLen)
+		}
 
 		if tf.catchPos == tryPanicMarker {
 			break
